@@ -76,3 +76,65 @@ func zzConc(second int) {
 func ZZ_C17_conc_getget()   { zzConc(0) }
 func ZZ_C17_conc_getdel()   { zzConc(1) }
 func ZZ_C17_conc_getevict() { zzConc(2 + vpChoose(2)) }
+
+// Close racing with a client whose second Get evicts the first node from the
+// LRU (the eviction releases a handle inside Get).
+func ZZ_C17_conc_close() {
+	zzVals, zzHandles, zzForce = nil, nil, true
+	zzConcOut = map[*zzVal]int{}
+	lr := NewLRU(1).(*lru)
+	c := NewCache(lr)
+	force := vpChoose(2) == 1
+	get := func(key uint64) {
+		h := c.Get(0, key, func() (int, Value) {
+			v := &zzVal{id: len(zzVals)}
+			zzVals = append(zzVals, v)
+			return 1, v
+		})
+		if h == nil {
+			return // closed
+		}
+		v := h.Value()
+		if !force {
+			vpAssert(v != nil && v.(*zzVal).released == 0, "handle-yields-a-live-value")
+		}
+		h.Release()
+	}
+	go func() {
+		get(0)
+		get(1)
+	}()
+	go func() {
+		c.Close(force)
+	}()
+	vpJoin()
+	for _, v := range zzVals {
+		vpAssert(v.released == 1, "every-value-finalised-exactly-once-after-close")
+	}
+}
+
+// A forced Close racing with the release of the last handle: the value is
+// still finalised exactly once (no replacement policy, so the only shared
+// state is the node itself).
+func ZZ_C17_conc_forceclose() {
+	zzVals, zzHandles, zzForce = nil, nil, true
+	c := NewCache(nil)
+	delCalls := 0
+	h := c.Get(0, 0, func() (int, Value) {
+		v := &zzVal{}
+		zzVals = append(zzVals, v)
+		return 1, v
+	})
+	if vpChoose(2) == 1 {
+		c.Delete(0, 0, func() { delCalls++ })
+		vpAssert(delCalls == 0, "delete-callback-waits-for-the-handle")
+	} else {
+		delCalls = -1
+	}
+	go func() { h.Release() }()
+	go func() { c.Close(true) }()
+	vpJoin()
+	vpAssert(zzVals[0].released >= 1, "value-finalised-under-forced-close")
+	vpAssert(zzVals[0].released <= 1, "value-finalised-at-most-once-under-forced-close")
+	vpAssert(delCalls == -1 || delCalls == 1, "delete-callback-exactly-once-under-forced-close")
+}
